@@ -268,7 +268,10 @@ def _big_stack():
 
 
 def _run_shard(binary, path, timeout):
-    """Run one binary over a shard file; on a stall mark the in-flight case HANG and resume."""
+    """Run one binary over a shard file with a PER-CASE watchdog: both binaries print and flush one line per
+    case; if no line arrives within `timeout` seconds the process is killed, the in-flight case is marked HANG
+    and the run resumes with the next case.  A process that dies early marks the in-flight case CRASH."""
+    import select
     lines_in = [l for l in open(path).read().split("\n") if l and not l.startswith("#")]
     results = []
     start = 0
@@ -276,31 +279,41 @@ def _run_shard(binary, path, timeout):
         tmp = path + ".part"
         with open(tmp, "w") as f:
             f.write("\n".join(lines_in[start:]) + "\n")
-        try:
-            p = subprocess.run([binary, tmp], stdout=subprocess.PIPE, stderr=subprocess.DEVNULL,
-                               timeout=timeout, preexec_fn=_big_stack)
-            out = p.stdout.decode("utf-8", "replace").split("\n")
-            if out and out[-1] == "":
-                out.pop()
-            results += out
-            got = len(out)
-            if got < len(lines_in) - start:
-                # crashed (abort / stack overflow): mark the in-flight case and resume
-                results.append("CRASH rc=%d" % p.returncode)
-                got += 1
-            start += got
-        except subprocess.TimeoutExpired as ex:
-            out = (ex.stdout or b"").decode("utf-8", "replace").split("\n")
-            if out and out[-1] == "":
-                out.pop()
-            # the last line may be partial only if no newline was flushed; harness flushes per line
-            results += out
+        p = subprocess.Popen([binary, tmp], stdout=subprocess.PIPE, stderr=subprocess.DEVNULL, preexec_fn=_big_stack)
+        fd = p.stdout.fileno()
+        buf, got, hang = b"", [], False
+        deadline = time.time() + timeout
+        while True:
+            r, _, _ = select.select([fd], [], [], max(0.0, deadline - time.time()))
+            if not r:
+                hang = True
+                p.kill()
+                break
+            chunk = os.read(fd, 1 << 16)
+            if not chunk:
+                break
+            buf += chunk
+            while b"\n" in buf:
+                line, buf = buf.split(b"\n", 1)
+                got.append(line.decode("utf-8", "replace"))
+                deadline = time.time() + timeout
+        p.wait()
+        p.stdout.close()
+        remaining = len(lines_in) - start
+        got = got[:remaining]
+        results += got
+        if hang:
             results.append("HANG")
-            start += len(out) + 1
+            start += len(got) + 1
+        elif len(got) < remaining:
+            results.append("CRASH rc=%d" % p.returncode)
+            start += len(got) + 1
+        else:
+            start += len(got)
     return results[:len(lines_in)]
 
 
-def run_both(cases, tag, timeout=None, per_shard_timeout=120, with_model=True):
+def run_both(cases, tag, timeout=None, per_shard_timeout=30, with_model=True):
     """Run the cases on the implementation harness and on the extracted model.
     Returns (impl_lines, model_lines)."""
     from concurrent.futures import ThreadPoolExecutor
